@@ -18,10 +18,13 @@ RULE = (
 ASSUMPTIONS = [
     "oracle is vf/model/assign.py written from docs/assignment.md and the C14 statement",
     "where the docs give two readings (latch together with a blocking notnone/increase/decrease) both votes are admitted and counted as tolerated_cells",
-    "x is observed by push('xs', @x) placed first on the line (value left by the previous line) and variables['x'] after the run",
+    "x is observed by push('xs', @x) placed first on the line (value left by the previous line) and variables['x'] after the run; in the empty-cell family by variables['x'] of runs over the first 1, 2, 3 records",
+    "docs/assignment.md does not say whether an empty cell counts as None: a step where exactly one of x, y is blank admits both votes and both write outcomes (tolerated_cells) and the model continues from the observed x; blank -> blank is 'no change' under either reading and is checked strictly",
 ]
 ENUM_EXHAUSTIVE = {
-    "thorough": "all 256 qualifier subsets x all y sequences of length 3 over {absent,1,2,3}(+true,false without increase/decrease) x all 8 rest patterns",
+    "thorough": "all 256 qualifier subsets x all y sequences of length 3 over {absent,1,2,3}(+true,false without increase/decrease) x all 8 rest patterns; "
+                "the 256 subsets x {absent,1,2}^3 x 8 rest patterns again on a tracking variable (tracking name first with reversed qualifier order / last); "
+                "the 16 subsets of onmatch/latch/onchange/nocontrib x sequences over {absent, empty cell, 1, 2} containing an empty cell x 8 rest patterns",
 }
 
 YS_NUM = [None, "1", "2", "3"]
@@ -41,10 +44,43 @@ def _all_cases():
                     yield {"quals": list(qs), "ys": list(yseq), "rest": list(rest)}
 
 
+def _tracked_cases():
+    """the same table when x is a tracking variable (@x.<quals with the tracking name k among them>) and
+    when the qualifiers are written in another order: the tracking name first or last, qualifiers reversed"""
+    for r in range(len(assign.QUALS) + 1):
+        for qs in itertools.combinations(assign.QUALS, r):
+            for yseq in itertools.product([None, "1", "2"], repeat=3):
+                for rest in itertools.product([True, False], repeat=3):
+                    for track in ("first", "last"):
+                        yield {"quals": list(qs), "ys": list(yseq), "rest": list(rest),
+                               "form": {"track": track, "order": "rev" if track == "first" else "fwd"}}
+
+
+BLANK_QUALS = ["onmatch", "latch", "onchange", "nocontrib"]
+
+
+def _blank_cases():
+    """y may also be an empty cell (""), for the qualifiers whose documented rule does not depend on
+    whether a blank counts as None"""
+    for r in range(len(BLANK_QUALS) + 1):
+        for qs in itertools.combinations(BLANK_QUALS, r):
+            for yseq in itertools.product([None, "", "1", "2"], repeat=3):
+                if "" not in yseq:
+                    continue
+                for rest in itertools.product([True, False], repeat=3):
+                    yield {"quals": list(qs), "ys": list(yseq), "rest": list(rest)}
+
+
 def enumerate_cases(tier, seed):
     if tier == "thorough":
         yield from _all_cases()
+        yield from _tracked_cases()
+        yield from _blank_cases()
         return
+    for j, fam in enumerate((_tracked_cases, _blank_cases)):
+        for i, c in enumerate(fam()):
+            if core.hash32(seed, "c14x", j, i) % 1000 < 35:
+                yield c
     # quick: seeded ~8% sample; every qualifier subset keeps >= 20 cases
     per = {}
     for i, c in enumerate(_all_cases()):
@@ -56,11 +92,28 @@ def enumerate_cases(tier, seed):
             yield c
 
 
-def expected(case):
+def _same(a, b):
+    return (a in (None, "")) and (b in (None, "")) or a == b
+
+
+def expected(case, observed_after=None):
+    """steps of the table.  A step with exactly one of x, y blank ("") is docs-silent (is a blank None?):
+    both votes and both outcomes of the write are admitted there and the model continues from the
+    observed value of x."""
     x = None
     steps = []
     tol = 0
-    for y, rest in zip(case["ys"], case["rest"]):
+    for i, (y, rest) in enumerate(zip(case["ys"], case["rest"])):
+        if (x == "") != (y == "") and not (x is None and y is None):
+            q = set(case["quals"])
+            votes = {True} if "nocontrib" in q else ({False} if ("onmatch" in q and not rest) else {True, False})
+            after = [x] if ("onmatch" in q and not rest) else [x, y]
+            obs = observed_after[i] if observed_after is not None and i < len(observed_after) else None
+            steps.append({"write": None, "votes": sorted(votes), "x_after_one_of": after,
+                          "returned": sorted({bool(v and rest) for v in votes}), "docs_silent": True})
+            tol += 1
+            x = obs if any(_same(obs, a) for a in after) else after[-1]
+            continue
         write, votes, tolerated = assign.decide(case["quals"], x, y, rest)
         if write:
             x = y
@@ -71,6 +124,18 @@ def expected(case):
     return steps, tol
 
 
+def qual_text(case):
+    form = case.get("form") or {}
+    names = list(case["quals"])
+    if form.get("order") == "rev":
+        names.reverse()
+    if form.get("track") == "first":
+        names.insert(0, "k")
+    elif form.get("track") == "last":
+        names.append("k")
+    return "".join("." + n for n in names)
+
+
 def run_case(case, sb):
     records = []
     for i, (y, rest) in enumerate(zip(case["ys"], case["rest"])):
@@ -79,20 +144,38 @@ def run_case(case, sb):
             r.append(y)
         records.append(r)
     rel = sb.write_csv("f.csv", records)
-    q = "".join("." + n for n in case["quals"])
-    text = f'${rel}[*][ push("xs", @x) @x{q} = #2 #1 == "t" ]'
+    tracked = bool((case.get("form") or {}).get("track"))
+    read = "@x.k" if tracked else "@x"
+    text = f'${rel}[*][ push("xs", {read}) @x{qual_text(case)} = #2 #1 == "t" ]'
     res = real.run_path(text)
-    steps, tol = expected(case)
     labels = ["q:" + n for n in case["quals"]] or ["q:none"]
-    nontrivial = any((not s["write"]) or (False in s["votes"]) for s in steps)
-    summary = {"csvpath": text, "records": records, "expected": steps}
+    if tracked:
+        labels.append("form:tracking-name-" + case["form"]["track"])
+    if "" in case["ys"]:
+        labels.append("y:empty-cell")
     if res["raised"]:
+        steps, tol = expected(case)
+        nontrivial = any((not s["write"]) or (False in s["votes"]) for s in steps)
         return core.outcome(ok=False, nontrivial=nontrivial, labels=labels,
                             detail={"csvpath": text, "records": records, "observed": res["raised"]},
-                            summary=summary)
+                            summary={"csvpath": text, "records": records, "expected": steps})
     v = res["variables"]
     xs = v.get("xs", [])
-    x_after = list(xs[1:]) + [v.get("x")]
+    xfin = v.get("x")
+    if tracked:
+        xfin = xfin.get("k") if isinstance(xfin, dict) else (None if xfin is None else {"not a tracking variable": xfin})
+    x_after = list(xs[1:]) + [xfin]
+    if "" in case["ys"] and not tracked:
+        # @x read inside the csvpath may itself treat a blank specially: the value of x after line i is
+        # taken from the variables of a run over the first i+1 records instead
+        x_after = []
+        for i in range(len(records)):
+            reli = sb.write_csv(f"f{i}.csv", records[: i + 1])
+            ri = real.run_path(text.replace(rel, reli))
+            x_after.append(None if ri["raised"] else ri["variables"].get("x"))
+    steps, tol = expected(case, x_after)
+    nontrivial = any((not s["write"]) or (False in s["votes"]) for s in steps)
+    summary = {"csvpath": text, "records": records, "expected": steps}
     ids = [(ln[0] if ln else None) for ln in res["lines"]]
     problems = []
     if len(xs) != 3:
@@ -101,7 +184,10 @@ def run_case(case, sb):
         if xs[0] is not None:
             problems.append({"x before first line": xs[0]})
         for i, s in enumerate(steps):
-            if x_after[i] != s["x_after"]:
+            if "x_after_one_of" in s:
+                if not any(_same(x_after[i], a) for a in s["x_after_one_of"]):
+                    problems.append({"line": i, "x_after_expected_one_of": s["x_after_one_of"], "x_after_observed": x_after[i]})
+            elif x_after[i] != s["x_after"] and not ("" in case["ys"] and _same(x_after[i], s["x_after"])):
                 problems.append({"line": i, "x_after_expected": s["x_after"], "x_after_observed": x_after[i]})
             got = f"id{i}" in ids
             if got not in s["returned"]:
